@@ -230,6 +230,8 @@ class Lockstep:
         sh, m = self.sh, self.model
         cls = getattr(self.factory.ns, typ)
         obj = cls(name=name) if name is not None else cls()
+        if getattr(self, '_preset_obj', None) is not None:
+            obj, self._preset_obj = self._preset_obj, None
         id_taken = aid is not None and aid in sh.live_ids()
         name_taken = name is not None and name in sh.live_names()
         if name is None and not allow_dup and not id_taken:
@@ -382,8 +384,11 @@ class Lockstep:
             return 'max'
         if len(set(left)) != len(left) or len(set(right)) != len(right):
             return 'dup-in-field'
-        if not left or not right:
+        if not left and not right:
             return 'empty'
+        if not left or not right:
+            # one side without members: the API accepts it (nothing is linked to anything by such an instance)
+            self.count('class:association-with-an-empty-side')
         for l in left:
             for r in right:
                 if sh.linked(cls, l, r):
@@ -509,6 +514,43 @@ class Lockstep:
             raise Divergence('model.add_attacker:name-changed', 'attacker name %r became %r' % (name, t.name))
         sh.attackers.append(t)
         self.real[k] = att
+
+    def op_add_prepared_attacker(self, typ1, typ2, si1, si2):
+        """an attacker whose entry points were set up on two asset objects BEFORE those were added to the model
+        (neither has an id yet); assets and attacker are then added.  The two entry points must stay two."""
+        sh, m = self.sh, self.model
+        names = ['prepared %d a' % self.step_no, 'prepared %d b' % self.step_no]
+        if set(names) & sh.live_names():
+            return
+        objs = [getattr(self.factory.ns, t)(name=nm) for t, nm in zip((typ1, typ2), names)]
+        steps = [list(self.lang.steps(t)) for t in (typ1, typ2)]
+        if not steps[0] or not steps[1]:
+            return
+        chosen = [steps[0][si1 % len(steps[0])], steps[1][si2 % len(steps[1])]]
+        att = self.AttackerAttachment()
+        att.entry_points = []
+        att.add_entry_point(objs[0], chosen[0])
+        att.add_entry_point(objs[1], chosen[1])
+        keys = []
+        for t, o in zip((typ1, typ2), objs):
+            n0 = len(sh.assets)
+            self._preset_obj = o
+            self.op_add_asset(t, str(o.name), None, True)
+            self._preset_obj = None
+            if len(sh.assets) != n0 + 1:
+                return
+            keys.append(sh.assets[-1].key)
+        try:
+            m.add_attacker(att)
+        except Exception as exc:
+            raise Divergence('model.add_attacker:raised', 'add_attacker of a prepared attacker raised %r' % (exc,))
+        k = self.key()
+        t = SAttacker(k)
+        t.id, t.name = att.id, att.name
+        t.eps = [(keys[0], [chosen[0]]), (keys[1], [chosen[1]])]
+        sh.attackers.append(t)
+        self.real[k] = att
+        self.count('class:attacker-prepared-before-its-assets-were-added')
 
     def op_remove_attacker(self, ref):
         sh, m = self.sh, self.model
@@ -745,6 +787,31 @@ def shared_instance_ops(rng, spec, history):
     return ops, [['remove_from_assoc', ['live', n + rng.randrange(2)], ['live', len(sh.assocs)]]]
 
 
+def empty_side_prefix(rng, lang):
+    """history prefix (for an empty model): an association instance one side of which has no member and the other
+    2-4; members leave it one by one (it must survive until its non-empty side is down to the last member)"""
+    conc = set(lang.concrete())
+    cands = []
+    for i, a in enumerate(lang.assocs):
+        for side in ('left', 'right'):
+            m = a[side + 'Multiplicity']['max']
+            ts = [t for t in lang.descendants(a[side + 'Asset']) if t in conc]
+            if ts and (m is None or m >= 2):
+                cands.append((i, side, ts, m))
+    if not cands:
+        return None
+    i, side, ts, m = rng.choice(cands)
+    n = rng.randint(2, min(4, m or 4))
+    ops = [['add_asset', rng.choice(ts), None, None, True] for _ in range(n)]
+    members = [['live', k] for k in range(n)]
+    ops.append(['add_assoc', i, members, []] if side == 'left' else ['add_assoc', i, [], members])
+    if rng.random() < 0.5:
+        ops.append(['add_assoc', i, members[:1] * 2, []] if side == 'left' else ['add_assoc', i, [], members[:1] * 2])    # the same asset twice (refused)
+    for k in range(rng.randint(1, n)):
+        ops.append(['remove_from_assoc', ['live', k], ['live', 0]])
+    return ops
+
+
 def big_link_prefix(rng, lang):
     """history prefix (for an empty model): one association instance with more than 32 (left, right) pairs and
     attempts that repeat one of its pairs / a big instance that repeats the pair of a small one.  None when the
@@ -818,13 +885,15 @@ def gen_history(rng, lang, n, invalid=0.2, names=None, attackers=True):
         elif r < 0.80:
             ops.append(['remove_from_assoc', rref(rng, 0.3 if bad else 0.0), rref(rng, 0.3 if bad else 0.0)])
         elif r < 0.84:
-            ops.append(['set_defense', rref(rng, 0), rng.randrange(16), rng.choice([0.0, 1.0, 0.5, 0.25])])
+            ops.append(['set_defense', rref(rng, 0), rng.randrange(16), rng.choice([0.0, 1.0, 0.5, 0.25, 0, 1])])     # (0 and 1 as ints too)
         elif not attackers:
             ops.append(['remove_asset', rref(rng, 0.0)])
         elif r < 0.89:
             ops.append(['add_attacker', rng.choice([None, None, 'Eve', 'Mallory']), None if rng.random() < 0.7 else rng.choice([20, 21, 30, 0])])
-        elif r < 0.92:
+        elif r < 0.915:
             ops.append(['remove_attacker', rref(rng, 0.4 if bad else 0.0)])
+        elif r < 0.92:
+            ops.append(['add_prepared_attacker', rng.choice(conc), rng.choice(conc), rng.randrange(16), rng.randrange(16)])
         elif r < 0.925:
             ops.append(['add_ep_empty', rref(rng, 0), rref(rng, 0)])
         elif r < 0.97:
